@@ -292,6 +292,22 @@ func checkC08(c *Ctx, r *Report) {
 	r3 := r.Rule("C08-R3", "E1/E6/E3", 12, "envelopes: validate only past Verify over makeUnsigned(domain, type, payload); Seal signs the same; consumers only past validate; no outside caller of UnmarshalEnvelope")
 	envT := recP + ".Envelope"
 	muK := recP + ".makeUnsigned"
+	// the signed pre-image is length-prefixed with varints: any hand-written varint length computation in the module
+	// must agree with encoding/binary (7 payload bits per byte), else a buffer sized with it truncates a field
+	{
+		nLoops := 0
+		for _, f := range c.Fns {
+			if f.Pkg != nil && f.Pkg.Pkg.Path() == Mod+controlsPkg {
+				continue
+			}
+			loops, bad := varintLoops(f)
+			nLoops += loops
+			for _, b := range bad {
+				r3.Fail(fnKey(f)+": varint length loop agrees with encoding/binary", f.Pos(), b, "a length computed one byte short truncates the last byte of a length-prefixed field (for envelopes: of the signed payload)")
+			}
+		}
+		r3.OK("module: varint length loops agree with encoding/binary", token.NoPos, len(c.Fns), fmt.Sprintf("%d loops consuming 7 bits per round", nLoops))
+	}
 	valK := "(*" + envT + ").validate"
 	if f := r3.need(valK); f != nil {
 		rets := successReturns(f)
